@@ -1,0 +1,35 @@
+//go:build verif
+
+// Verification hook for property C11 (add-only, compiled only with -tags verif): lets the /verif
+// harness evaluate the unexported legacy comparison and read the unexported default tables.
+// Nothing here changes behaviour.
+package builtins
+
+import (
+	"sigs.k8s.io/kustomize/api/types"
+	"sigs.k8s.io/kustomize/kyaml/resid"
+)
+
+// VerifC11LegacyLess is legacyIDSorter.Less on the pair (a, b). options == nil means the defaults
+// that SortOrderTransformerPlugin.applyDefaults installs.
+func VerifC11LegacyLess(a, b resid.ResId, options *types.LegacySortOptions) bool {
+	if options == nil {
+		options = &types.LegacySortOptions{
+			OrderFirst: defaultOrderFirst,
+			OrderLast:  defaultOrderLast,
+		}
+	}
+	s := newLegacyIDSorter(nil, options)
+	s.resids = []resid.ResId{a, b}
+	return s.Less(0, 1)
+}
+
+// VerifC11DefaultLegacyOrder returns copies of defaultOrderFirst and defaultOrderLast.
+func VerifC11DefaultLegacyOrder() (first, last []string) {
+	return append([]string{}, defaultOrderFirst...), append([]string{}, defaultOrderLast...)
+}
+
+// VerifC11NameSkipLists returns copies of prefixFieldSpecsToSkip and suffixFieldSpecsToSkip.
+func VerifC11NameSkipLists() (prefix, suffix types.FsSlice) {
+	return append(types.FsSlice{}, prefixFieldSpecsToSkip...), append(types.FsSlice{}, suffixFieldSpecsToSkip...)
+}
